@@ -109,7 +109,12 @@ def evaluate(ctx, results, tag):
   for i, r in enumerate(results):
     if "exc" in r:
       continue
-    for name, t in terms_for(r):
+    try:
+      ts = list(terms_for(r))
+    except ValueError as e:      # NaN / Inf has no dyadic form: reported with the case as failing input
+      r["exc"] = "non-finite value in the implementation's output for finite input (%s)" % e
+      continue
+    for name, t in ts:
       terms.append(t)
       idx.append((i, name))
   vals = ctx.coq_eval(tag, HEADER, terms, per_shard=10, timeout=1800)
